@@ -243,19 +243,24 @@ class Evaluator(Run):
         if self.pure:
             vals = []
             for x in node.values:
-                v = self.ev(x, frame)
+                try:
+                    v = self.ev(x, frame)
+                except EngineError:
+                    # a partial operand: harmless if an earlier operand already decides the result
+                    # under the path condition (python would not have evaluated it)
+                    for pv in vals:
+                        if pv.t.kind == "bool" and not has_quant(pv.z):
+                            if is_and and not self.feasible(pv.z):
+                                return mk_bool(False)
+                            if not is_and and not self.feasible(z3.Not(pv.z)):
+                                return mk_bool(True)
+                    raise
                 vals.append(v)
                 if v.t.kind == "bool":
                     zs = zsimp(v.z)
                     # short-circuit on a literally decided operand (guards partial sub-clauses)
                     if (z3.is_false(zs) and is_and) or (z3.is_true(zs) and not is_and):
                         return mk_bool(not is_and)
-                    if x is not node.values[-1] and not has_quant(zs):
-                        # decided by the path condition: the remaining operands may be partial here
-                        if is_and and not self.feasible(zs):
-                            return mk_bool(False)
-                        if not is_and and not self.feasible(z3.Not(zs)):
-                            return mk_bool(True)
             if all(v.t.kind == "bool" for v in vals):
                 return mk_bool((z3.And if is_and else z3.Or)([v.z for v in vals]))
             res = vals[-1]
@@ -804,9 +809,14 @@ class Evaluator(Run):
 
     def special_implies(self, node, frame):
         a = self.truthy(self.ev(node.args[0], frame))
-        if z3.is_false(zsimp(a)) or (not has_quant(a) and not self.feasible(a)):
+        if z3.is_false(zsimp(a)):
             return mk_bool(True)  # lazy: the consequent may be partial where the antecedent is false
-        b = self.truthy(self.ev(node.args[1], frame))
+        try:
+            b = self.truthy(self.ev(node.args[1], frame))
+        except EngineError:
+            if not has_quant(a) and not self.feasible(a):
+                return mk_bool(True)
+            raise
         return mk_bool(z3.Implies(a, b))
 
     def _quant(self, node, frame, forall, ty=None):
@@ -1287,7 +1297,13 @@ class Evaluator(Run):
                     models.dict_delitem(self, base, self.ev(t.slice, frame), self.lab(t, "del"))
                 elif base.t.kind == "list":
                     if isinstance(t.slice, ast.Slice):
-                        raise Unsupported("del list slice")
+                        if t.slice.step is not None:
+                            raise Unsupported("del list slice with step")
+                        lo = self.to_int(self.ev(t.slice.lower, frame)) if t.slice.lower is not None else None
+                        hi = self.to_int(self.ev(t.slice.upper, frame)) if t.slice.upper is not None else None
+                        st = self.content(base).t
+                        models.list_setslice(self, base, lo, hi, V(st, z3.Empty(st.sort())))
+                        continue
                     models.call_method(self, base, "pop", [self.ev(t.slice, frame)], {}, t)
                 elif base.t.kind == "obj":
                     self.call_value(const(BoundMethod(base, "__delitem__")), [self.ev(t.slice, frame)], {}, t, frame)
